@@ -1208,6 +1208,14 @@ class RealJob:
         "wrapper-child-ignores": (["sh", "-c", "(trap '' TERM; exec sleep {t}) & wait"], None, (1, False, True)),
         "wrapper-child-ignores-timeout": (["sh", "-c", "(trap '' TERM; exec sleep {t}) & wait"], 3.0, (1, False, True)),
     }
+    # a solver that writes N bytes to stdout / stderr and exits at once, with and without a time limit
+    OUT_SIZES = (1, 65535, 65537, 1048576)
+    for _n in OUT_SIZES:
+        for _lim in (None, 6.0):
+            KINDS[f"out-stdout-{_n}" + ("-limit" if _lim else "")] = (["head", "-c", str(_n), "/dev/zero"], _lim, None)
+            KINDS[f"out-stderr-{_n}" + ("-limit" if _lim else "")] = (
+                ["sh", "-c", f"exec head -c {_n} /dev/zero >&2"], _lim, None)
+    del _n, _lim
     SIMPLE = ("true", "false", "missing-binary", "not-executable", "cancelled-before-start", "sleep-short", "sleep-long",
               "timeout")
     NOEXEC = None
@@ -1250,6 +1258,8 @@ class RealJob:
 
         self.f.set_result, self.f.cancel = set_result, cancel
         self.pre_cancelled = False
+        self.stalled = False
+        self.stall_obs = []          # consecutive observations (time, bytes written) of the solver blocked in write()
         self.worker = None
         self.t_submit = None
         self.t_ready = None
@@ -1490,7 +1500,57 @@ def detach_stuck_workers(ctx, workers, grace=3.0):
                 pass
 
 
-def bounded_shutdown(ex, wait, jobs, patience=150.0, call=None):
+def worker_is_draining(worker) -> bool | None:
+    """is the worker thread inside Popen.communicate (which reads the pipes)? None if unknown"""
+    import sys
+    fr = sys._current_frames().get(getattr(worker, "ident", None)) if worker is not None else None
+    if fr is None:
+        return None
+    while fr is not None:
+        if fr.f_code.co_filename.endswith("subprocess.py") and fr.f_code.co_name in ("communicate", "_communicate"):
+            return True
+        fr = fr.f_back
+    return False
+
+
+def check_output_stall(ctx, jobs, replay) -> bool:
+    """State-decided: the solver process is alive and blocked in write() on a full pipe, has written nothing for four
+    observations >= 0.5 s apart, and the worker thread is NOT inside communicate() (nobody drains the pipe): the job can
+    only end by its time limit, or never. Reports it, then kills the process so that the run can go on."""
+    found = False
+    for j in jobs:
+        f = j.f
+        if j.stalled or f.done() or f.process is None or not j.kind.startswith("out-"):
+            continue
+        pid = f.process.pid
+        try:
+            wchan = open(f"/proc/{pid}/wchan").read()
+            sysc = open(f"/proc/{pid}/syscall").read().split()[:1]
+            wchar = [int(l.split()[1]) for l in open(f"/proc/{pid}/io") if l.startswith("wchar")][0]
+        except (OSError, ValueError, IndexError):
+            j.stall_obs = []
+            continue
+        in_write = "pipe_w" in wchan or sysc == ["1"]
+        if not in_write or worker_is_draining(j.worker) is not False:
+            j.stall_obs = []
+            continue
+        now = time.time()
+        if j.stall_obs and j.stall_obs[-1][1] != wchar:
+            j.stall_obs = []
+        if not j.stall_obs or now - j.stall_obs[-1][0] >= 0.5:
+            j.stall_obs.append((now, wchar))
+        if len(j.stall_obs) >= 4:
+            j.stalled = found = True
+            ctx.violation("real:output-not-drained:solver-blocked-in-write",
+                          f"real processes: job {j.kind}: the solver process wrote {wchar} bytes and has been blocked in write() on a "
+                          f"full pipe for {now - j.stall_obs[0][0]:.1f} s while the worker thread is not in communicate() "
+                          f"(nothing reads the pipe): the result can only come from the time limit ({j.timeout}) or never", replay)
+            with __import__("contextlib").suppress(Exception):
+                f.process.kill()
+    return found
+
+
+def bounded_shutdown(ex, wait, jobs, patience=150.0, call=None, tick=None):
     """run `ex.shutdown(wait=...)` of the code under test in a helper thread that can be abandoned.
     -> ("ok", None) | ("raised", exc) | ("hang", why) | ("slow", None).
     "hang" is decided from state, not from time: shutdown(wait=True) is still blocked although the worker thread of
@@ -1515,6 +1575,8 @@ def bounded_shutdown(ex, wait, jobs, patience=150.0, call=None):
         th.join(0.01)
         if not th.is_alive():
             break
+        if tick is not None:
+            tick()
         pending = [j for j in jobs if not j.f.done()]
         if wait and pending and all(j.worker is not None and not j.worker.is_alive() for j in pending):
             stuck_since = stuck_since or time.time()
@@ -1558,6 +1620,8 @@ def _real_process_runs(ctx, n_runs, P, rng, escaped, forced=None):
         return RealJob(P, kind, serial[0], escaped)
 
     directed = [
+        ("none", ["out-stdout-65537", "out-stderr-1048576-limit", "out-stdout-1"], False),
+        ("wait", ["out-stdout-1048576-limit", "out-stderr-65537", "out-stdout-65535"], False),
         # through the registry, the way halmos requests it (on_exit / on_signal): 2 executors, then 1
         ("nowait", ["sleep-long", "sleep-long", "ignore-term"], False, 2),
         ("nowait", ["sleep-long", "timeout"], False, 1),
@@ -1641,7 +1705,8 @@ def _real_process_runs(ctx, n_runs, P, rng, escaped, forced=None):
             hung = False
             if mode != "none":
                 how, info = bounded_shutdown(ex, mode == "wait", jobs,
-                                             call=(lambda: P.ExecutorRegistry().shutdown_all()) if via_registry else None)
+                                             call=(lambda: P.ExecutorRegistry().shutdown_all()) if via_registry else None,
+                                             tick=lambda: check_output_stall(ctx, jobs, replay))
                 if via_registry and how == "ok":
                     missed = [e for e in sorted(registered) if not exs[e].is_shutdown()]
                     if missed:
@@ -1690,6 +1755,7 @@ def _real_process_runs(ctx, n_runs, P, rng, escaped, forced=None):
                 t_w = time.time() + 120
                 while time.time() < t_w and any(not j.f.done() and (j.worker is None or j.worker.is_alive())
                                                 for j in jobs if j.kind not in RealJob.ENDLESS):
+                    check_output_stall(ctx, jobs, replay)
                     time.sleep(0.01)
                 judged = [j for j in jobs if j.f.done()]
             if mode == "wait":
@@ -1722,6 +1788,7 @@ def _real_process_runs(ctx, n_runs, P, rng, escaped, forced=None):
             for j in jobs:
                 f = j.f
                 while not f.done() and time.time() < t_end and (j.worker is None or j.worker.is_alive()):
+                    check_output_stall(ctx, jobs, replay)
                     time.sleep(0.01)
                 if not f.done():
                     if j.worker is not None and not j.worker.is_alive():
@@ -1742,6 +1809,14 @@ def _real_process_runs(ctx, n_runs, P, rng, escaped, forced=None):
                     ctx.violation("real:result-once", f"{j.kind}: set_result executed {j.count[0]} times", replay)
                 if j.callbacks[0] != 1:
                     ctx.violation("real:done-callback-count", f"{j.kind}: done callback invoked {j.callbacks[0]} times", replay)
+                if j.kind.startswith("out-") and not j.stalled and mode != "nowait" and raised is None:
+                    n = int(j.kind.split("-")[2])
+                    want = (n, 0) if "stdout" in j.kind else (0, n)
+                    got = (len(res[0] or ""), len(res[1] or ""), res[2]) if exc is None and res else None
+                    if got != (want[0], want[1], 0):
+                        ctx.violation("real:solver-output-lost-or-wrong",
+                                      f"{j.kind}: the solver wrote {n} bytes and exited 0; result() gave "
+                                      f"{'(len stdout, len stderr, returncode) = ' + str(got) if got else repr(exc)}", replay)
                 if j.kind == "not-executable" and not isinstance(exc, PermissionError):
                     ctx.violation("real:popen-error-lost", f"{j.kind}: result() gave {exc!r}", replay)
                 if j.pre_cancelled and not (isinstance(exc, P.ShutdownError) and f.process is None):
@@ -1749,7 +1824,8 @@ def _real_process_runs(ctx, n_runs, P, rng, escaped, forced=None):
                                   f"{j.kind}: cancel() before submit: result() gave {exc!r}, process started: {f.process is not None}",
                                   replay)
                 if mode == "wait" and raised is None:
-                    if j.timeout and j.kind != "echo" and not isinstance(exc, subprocess.TimeoutExpired):
+                    if j.timeout and j.kind != "echo" and not j.kind.startswith("out-") \
+                            and not isinstance(exc, subprocess.TimeoutExpired):
                         ctx.violation("real:timeout-not-TimeoutExpired",
                                       f"{j.kind}: result() gave {exc!r} instead of raising TimeoutExpired", replay)
                     if j.kind == "echo" and (exc is not None or res[0] != "unsat\n"):
@@ -2046,7 +2122,7 @@ def correspond(ctx):
 
     ctx.note(f"t+{time.time() - ctx.t0:.0f}s: model comparison done")
     # --- 5. real subprocesses ------------------------------------------------------------------------------------------
-    real_process_runs(ctx, ctx.scale(15, 150), literals)
+    real_process_runs(ctx, ctx.scale(17, 150), literals)
 
     if mismatch:
         mismatches.append(mismatch)
